@@ -9,9 +9,9 @@ def thms(mod, names):
 
 PROPS = {
     "C11": {
-        "theorems": thms(P + "C11", ["C11_phy_total", "C11_short_rejected"]),
+        "theorems": {**thms(P + "C11", ["C11_phy_total", "C11_short_rejected"]), **thms(P + "C15", ["C15_unmarshal_total"])},
         "ties": thms(T + "Protocol", ["tie_minimumMessageSize", "tie_maxFOptsLen", "tie_maxPayloadSize", "tie_mtypes", "tie_isValidBufferOp", "tie_macUplinkTable", "tie_macDownlinkTable"]),
-        "engines": ["phydec"],
+        "engines": ["phydec", "gwcodec", "gw"],
         "assumptions": ["the frame decoder is the only parser of radio payloads; stages after it are covered by the pipeline engines"],
         "trusted_base": ["Go index/slice panics transcribed as Res.panic in Model/Phy.lean, Model/Mac.lean"],
     },
@@ -29,6 +29,28 @@ PROPS = {
         "engines": ["mac", "macset"],
         "assumptions": ["MACCommandSet.Copy (map iteration order) is not modelled; the server never calls it with a non-empty set"],
         "trusted_base": ["LoRaWAN 1.0 sections 5 and 14 command layouts transcribed as Spec/MacLayout.lean"],
+    },
+    "C15": {
+        "theorems": thms(P + "C15", ["C15_pull_ack", "C15_push_ack", "C15_rxpk_forwarded", "C15_unmarshal_total", "C15_unmarshal_marshal"]),
+        "ties": thms(T + "Gateway", ["tie_identifiers", "tie_freqTable"]),
+        "engines": ["gw", "gwcodec"],
+        "assumptions": ["encoding/json and encoding/base64 are trusted: the model receives the parsed rxpk entries, the implementation the JSON text built from them",
+                        "UDP loopback keeps order per socket pair (barrier technique); the forwarder main loop is one goroutine"],
+        "trusted_base": ["Semtech packet forwarder protocol transcribed as Model/Gateway.lean (header codec + main loop step)"],
+    },
+    "C16": {
+        "theorems": thms(P + "C16", ["C16_unauthorised_noop", "C16_authorised_served", "C16_checks_off", "C16_immediate"]),
+        "ties": thms(T + "Gateway", ["tie_identifiers"]),
+        "engines": ["gw"],
+        "assumptions": ["IP comparison is a string compare of net.IP.String() against the datagram's source address (library canonicalisation trusted)"],
+        "trusted_base": ["registry read through storage.GetGateway at every datagram (modelled as a function argument of step)"],
+    },
+    "C17": {
+        "theorems": thms(P + "C17", ["C17_pull_resp", "C17_tmst_present", "C17_latest_port"]),
+        "ties": thms(T + "Gateway", ["tie_identifiers", "tie_txpkTags", "tie_freqTable", "tie_rxDelayMultiplier", "tie_encoderDelays"]),
+        "engines": ["gw"],
+        "assumptions": ["encoding/json emits exactly the tagged fields (tags tied by regenerated facts)"],
+        "trusted_base": ["txpk record of the Semtech protocol transcribed as Props/C17.lean specTxpk"],
     },
     "C14": {
         "theorems": thms(P + "C14", ["C14_eq_rfc4493", "C14_pure"]),
@@ -54,6 +76,21 @@ MANIFEST_TEXT = {
         "level": "Lean theorems: each of the 22 commands has the spec's CID/direction, its declared length, the spec's octets for all fitting values (C13_layout), decodes back (C13_roundtrip_fields); Add preserves limit/direction/CID-order for every offer sequence (C13_reachable_inv); encode writes exactly EncodedLength bytes. Tied by the regenerated CID/type/Length table and by exhaustive (<=12 bits quick, <=24 bits thorough) differential encode/decode through the public frame path.",
         "note": "command bodies tied by correspondence (the extractor ties CID, constructor, direction flag, Length literal, guard operator)",
         "technique": "Lean 4 proof (case analysis over 22 commands, decide for bit packing, omega for 16/24-bit fields, induction over offers) + differential correspondence",
+    },
+    "C15": {
+        "level": "Lean theorems on the forwarder step function: exactly one PULL_ACK / PUSH_ACK echoing token and version to the sender, all valid rxpk entries forwarded once, in order, intact (induction over entries), header codec total and decode(encode p) = canon p for the six types. Model tied to the real GenericPacketForwarder by differential runs over loopback UDP (6 sockets, 4 source addresses, registry changes, malformed JSON/base64, all identifiers) and 30k codec cases per run.",
+        "note": "JSON/base64/UDP are trusted (inputs pre-parsed for the model); marshal(unmarshal d) = d is decided on the implementation by the codec engine, not yet a Lean theorem",
+        "technique": "Lean 4 proof (decision logic stated outright, induction over rxpk entries) + trace comparison against the real UDP forwarder",
+    },
+    "C16": {
+        "level": "Lean theorems: unless checks are disabled an unregistered gateway, or a strict one from another address, gets (state, no ack, nothing forwarded); authorised ones are served; with checks off all are served; the answer depends only on the registry at that moment (C16_immediate). Tied by differential sequences interleaving Create/Update/DeleteGateway with datagrams from 4 source addresses, both switch values; absence of an ack established by a barrier PULL_DATA on the same socket.",
+        "note": "IP string canonicalisation is library behaviour (partial)",
+        "technique": "Lean 4 proof (authorisation predicate stated outright) + trace comparison against the real UDP forwarder",
+    },
+    "C17": {
+        "level": "Lean theorems: the PULL_RESP goes to the uplink's host and the port of the latest PULL_DATA of that gateway (induction over arbitrary datagram sequences), txpk = independent spec record with tmst = (clock + delay*10^6) mod 2^32 always present. Tied by regenerated JSON tags (no omitempty on tmst), frequency table, multiplier and encoder delays (5 / 1), and by real PULL_RESP datagrams parsed field by field incl. wrapping clocks.",
+        "note": "JSON encoder trusted given the tags; delay values 1/5 come from the encoder (tied by fact), the pipeline-level delay choice is covered with the pipeline engine",
+        "technique": "Lean 4 proof (induction over datagram sequences, arithmetic mod 2^32) + regenerated-facts tie + trace comparison",
     },
     "C14": {
         "level": "Lean theorem C14_eq_rfc4493: for every block function E, every key and every message length the model of AESCMAC equals RFC 4493 (bit-string spec); model tied to pkg/cmac by regenerated constants and by differential runs (tag and caller's backing array compared) on every length 0..96 (quick) / 0..1024 x capacities 0..64 (thorough). Purity is decided by the correspondence/oracle on the real code; the Lean statement C14_pure covers the model's copy semantics only.",
